@@ -2,7 +2,7 @@ from common import ENUMX_ASSUME
 
 CHECK = dict(
     pkgs=["app/eth2wrap"],
-    files={"app/eth2wrap": ["zz_verif_c19_test.go"]},
+    files={"app/eth2wrap": ["zz_verif_c19_test.go", "zz_verif_c19_net_test.go"]},
     libs=["enumx"],
     run="TestVerifC19",
     level="fault_enumeration",
@@ -15,8 +15,14 @@ CHECK = dict(
           "judged call is made on a client object that already served calls (the multi client and its best-node selector live as long as the process): "
           "every outcome vector over {ok, generic, syncing, hang} of one earlier provide/submit call, made once or three times in a row, on 2x1, 1x1, "
           "2x0 (thorough also 3x1, 1x2) nodes, followed by every judged script over the six outcome classes x latency orders x {no cancel, cancel "
-          "before the first answer}; same oracle on the judged call",
-    trusted="testing/synctest virtual time; scripted nodes honour their context; caller cancellation never coincides with a node answer (half-quantum offset)",
+          "before the first answer}; same oracle on the judged call. Proxy-style calls (multi.Proxy with a request body) run through the same product with "
+          "the additional oracle that every consulted node is handed the caller's request unaltered. Part C (real time, real loopback sockets): the "
+          "layers the scripted nodes replace - lazily connecting HTTP node clients (newBeaconClient/lazy/go-eth2-client) - with hung nodes (accept, never "
+          "answer) and the repository's beacon mock as healthy node: topologies {hung; hung,hung; hung|hung; hung,healthy; healthy,hung} x {provide, "
+          "submit, proxy} x {first, second call on the client} x {caller cancels after 200 ms, never}; a call still blocked 20 s later, against node "
+          "timeouts of one hour, is judged to be waiting for a hung node",
+    trusted="part C is the one place where a verdict depends on wall-clock time (network I/O cannot run on a virtual clock): bound 20 s vs one hour, "
+            "every candidate confirmed on two further runs; testing/synctest virtual time; scripted nodes honour their context; caller cancellation never coincides with a node answer (half-quantum offset)",
     rule="scripts enumerated as a product; non-trivial class = call kind x topology x (returned, error)",
     assumptions=ENUMX_ASSUME,
     budget_s={"quick": 100, "thorough": 1500},
